@@ -46,6 +46,14 @@ def analyse28(ck):
     # positive knobs: loop over [(name, value); 3]
     # the rejected set of the (unsigned) knob value is exactly {0}, however the comparison is spelt (`!(v > 0)`, `v == 0`, `v < 1`)
     h = [g for g, ivs, _ in guards.rejected_sets(mv.gt, lambda t: isinstance(t, tuple) and t[0] == "fld" and t[2] == "1" and isinstance(t[1], tuple) and t[1][0] == "elem") if ivs == [(0, 0)]]
+    if not h:
+        # `if let Some((name, _)) = knobs.iter().find(|(_, v)| *v == 0) { bail }`
+        for g_, coll_, pred_ in mv.exists_guards():
+            pr_ = P.norm(pred_)
+            if g_["outcome"] <= {"err"} and isinstance(pr_, tuple) and len(pr_) == 4 and pr_[0] == "bin" and pr_[1] in ("Eq", "Le", "Lt"):
+                fake = [{"cond": pr_, "fail_when": True, "kind": "if", "outcome": g_["outcome"]}]
+                if [1 for _, ivs, _ in guards.rejected_sets(fake, lambda t: isinstance(t, tuple) and t[0] == "fld" and t[2] == "1" and isinstance(t[1], tuple) and t[1][0] == "elem") if ivs == [(0, 0)]]:
+                    h.append(dict(g_, cond=("tuple", (pr_, P.norm(coll_)))))
     okp = len(h) == 1 and h[0]["outcome"] <= {"err"}
     if okp:
         arr = h[0]["cond"]
@@ -57,7 +65,9 @@ def analyse28(ck):
                         vals.add(P.param_path(it[1][1]))
         okp = vals == {"config.num_challenges", "config.security_bits", "config.fri_config.num_query_rounds"}
     ob.add({"C28"}, okp, "CMP", "policy/positive-knobs", "rejects num_challenges, security_bits or fri_config.num_query_rounds == 0 (loop over exactly these three)", h[0]["loc"] if h else mv.loc0)
-    n_err = len([g for g in mv.gt if g["outcome"] <= {"err"} and g["kind"] == "if"])
+    # rejection sites: `if c { Err }` guards, plus exists-form guards (`if let Some(..) = xs.iter().find(..) { Err }`), which are matches
+    ex_sites = set(id(g_) for g_, _, _ in mv.exists_guards() if g_["outcome"] <= {"err"} and g_["kind"] != "if")
+    n_err = len([g for g in mv.gt if g["outcome"] <= {"err"} and (g["kind"] == "if" or id(g) in ex_sites)])
     ob.add({"C28"}, n_err == 8, "INV", "policy/no-other-rule", "validate_circuit_config has exactly the 8 documented rejection sites (found %d): it accepts exactly the stated set" % n_err, mv.loc0, table)
     ob.add({"C28"}, not [g for g in mv.gt if "panic" in g["outcome"] and g["kind"] != "match"], "INV", "policy/no-panic", "no assertion / explicit panic in validate_circuit_config", mv.loc0)
     lv = e2.MethodView(ck, "^" + COMMON + r"::circuit::log2_ceil$", COMMON)
@@ -105,11 +115,20 @@ def analyse28(ck):
             pp = P.param_path(x)
             if cn and pp and pp.startswith("self."):
                 got.add((pp[5:], o, cn))
+    # … and the same comparisons written as the predicate of `if let Some(v) = self.flag.filter(|&v| v > MAX) { Err }`
+    for g, coll, pred in av.exists_guards():
+        if not (g["outcome"] <= {"err"}) or not (isinstance(pred, tuple) and len(pred) == 4 and pred[0] == "bin" and pred[1] in guards.FLIP):
+            continue
+        for x, y, o in ((pred[2], pred[3], pred[1]), (pred[3], pred[2], guards.FLIP[pred[1]])):
+            cn = const_name(y)
+            pp = P.param_path(x)
+            if cn and pp and pp.startswith("self."):
+                got.add((pp[5:], o, cn))
     ob.add({"C28"}, want <= got, "AGREE", "memprof/constants", "AggConfigArgs::validate compares the same flags with the same policy constants (same definitions) and operators as validate_circuit_config", av.loc0,
            {"missing": sorted(want - got), "found": sorted(got)})
     # those constants are the common crate's items (not local copies)
     defs = set()
-    for g in av.gt:
+    for g in list(av.gt) + [{"cond": pred} for _, _, pred in av.exists_guards()]:
         for s in T.walk(g["cond"]):
             if s and s[0] == "c" and s[2] and s[2].rsplit("::", 1)[-1] in ("MAX_RATE_BITS", "MAX_CAP_HEIGHT", "MIN_NUM_WIRES", "MIN_MAX_QUOTIENT_DEGREE_FACTOR", "MIN_NUM_ROUTED_WIRES"):
                 defs.add(s[2])
